@@ -1030,6 +1030,14 @@ impl RelationalSlab {
         }
     }
 
+    /// Replace the contents of this slab with a snapshot, in place.
+    ///
+    /// Used when a whole store image is restored into a live store whose handles
+    /// are shared (the slab itself cannot be swapped).
+    pub fn replace_with(&self, snapshot: RelationalSlabSnapshot) {
+        *self.tables.write() = snapshot.tables;
+    }
+
     /// Restores from a snapshot.
     #[must_use]
     pub fn restore(snapshot: RelationalSlabSnapshot) -> Self {
